@@ -753,10 +753,35 @@ pub fn pmtiles_boundary_cases(seed: u64, thorough: bool) -> Vec<Value> {
 	(lo.saturating_sub(span)..=(lo + span).min(16383)).step_by(step).map(mk).collect()
 }
 
+/// directed at the read-chunk limits of the versatiles reader's box stream (64 MiB per chunk, 32 KiB gap): a block holding
+/// more than 64 MiB of tile data, and three tiles of one block of which a box selects the first and the last while the
+/// 40 KiB tile stored between them is not selected
+fn chunk_boundary_cases() -> Vec<Value> {
+	let mut big = vec![];
+	let mut classes = serde_json::Map::new();
+	for i in 0..70u32 {
+		big.push(json!([4, i % 16, i / 16, i + 1]));
+		classes.insert((i + 1).to_string(), json!([1 << 20, 0]));
+	}
+	big.push(json!([4, 15, 15, 71]));
+	classes.insert("71".into(), json!([700, 1]));
+	big.push(json!([2, 1, 1, 72]));
+	classes.insert("72".into(), json!([999, 1]));
+	let mut v = vec![json!({"k":"case","origin":"writer","fmt":"versatiles","tf":"png","tc":"none","tiles":big,"classes":classes,"choices":{"none":1}})];
+	for fmt in ["versatiles", "pmtiles", "tar"] {
+		v.push(json!({"k":"case","origin":"writer","fmt":fmt,"tf":"pbf","tc":"none","tiles":[[3,0,0,1],[3,1,0,2],[3,0,1,3],[3,5,5,4]],
+			"classes":{"1":[500,0],"2":[40960,0],"3":[600,0],"4":[70000,0]},"choices":{"none":1}}));
+	}
+	v
+}
+
 pub fn record(output: &str, dir: &str, seed: u64, thorough: bool, only: &str) -> Value {
 	let mut cases = random_cases(seed, thorough, only);
 	if only == "C01" {
 		cases.extend(pmtiles_boundary_cases(seed, thorough));
+	}
+	if only == "C01" || only == "C02" {
+		cases.extend(chunk_boundary_cases());
 	}
 	let mut out = Out::create(output);
 	let mut tiles = 0usize;
